@@ -1,4 +1,4 @@
-CONSTANTS MaxTx = 2  MaxH = 10  Level = 1
+CONSTANTS DispModes = {FALSE}  MaxTx = 2  MaxH = 10  Level = 1
 INIT Init
 NEXT NextCover
 VIEW view
